@@ -402,7 +402,7 @@ func relaySession(r *ev.Run, rng *gen.Rand, sidx int, big *bigCase) {
 	// (used when the session did not end normally: a missing tail is then not evidence).
 	compare := func(prefixOnly bool) bool {
 		sent := rec.RawOut()
-		maxWait := 600
+		maxWait := 2000 // up to 10 s on a loaded machine; the loop ends as soon as the bytes are there
 		if prefixOnly {
 			maxWait = 40 // the session already ended abnormally: only what has arrived is compared
 		}
@@ -423,6 +423,11 @@ func relaySession(r *ev.Run, rng *gen.Rand, sidx int, big *bigCase) {
 			return a[:n], b[:n]
 		}
 		g2, s2 := cut(got, sent)
+		if !prefixOnly && len(got) < len(sent) && bytes.Equal(got, sent[:len(got)]) && len(sent)-len(got) <= 5 {
+			// only the final COM_QUIT (which has no reply) has not arrived within the bounded wait: nothing was altered
+			r.Inconclusive("mysql relay: COM_QUIT still in flight after the bounded wait")
+			return false
+		}
 		if !bytes.Equal(g2, s2) {
 			at := firstDiff(got, sent)
 			r.Violation(fmt.Sprintf("mysql relay: client->database stream altered: config=%s at-message=%s%s", cfgName, msgAt(sent, at, true), bigClass), detail(map[string]interface{}{"offset": at, "sent_len": len(sent), "arrived_len": len(got), "sent_at": ev.Hex(window(sent, at)), "arrived_at": ev.Hex(window(got, at))}))
